@@ -44,6 +44,7 @@ for pid in props:
             'quick_cmd': 'python3 -m hv.run %s --tier quick' % pid,
             'thorough_cmd': 'python3 -m hv.run %s --tier thorough' % pid,
             'evidence_file': '/verif/evidence/%s.json' % pid,
+            'replay_cmd_template': 'python3 -m hv.run %s --replay {path}' % pid,
             'engine': 'hv',
             'level_claimed': {'category': 'exploration', 'text': text, 'design_ref': 'DESIGN.md section ' + ref},
             'level_note': TRUST,
